@@ -5,9 +5,9 @@
 #[verifier::external_body] #[verifier::accept_recursive_types(C)]
 pub struct CoinMapping<C: ContentAddrStore> { _c: core::marker::PhantomData<C> }
 impl<C: ContentAddrStore> View for CoinMapping<C> { type V = CoinsView; uninterp spec fn view(&self) -> CoinsView; }
-impl<C: ContentAddrStore> CoinMapping<C> { pub uninterp spec fn wf(&self) -> bool;
-    /// the tree holds coin entries only (no count entries, nothing foreign): the shape of a pre-TIP-906 coin tree
-    pub uninterp spec fn only_coins(&self) -> bool; }
+impl<C: ContentAddrStore> CoinMapping<C> {
+    /// tree invariant (defined in lemmas/coins_raw.rs for the proving unit): entries decode, nothing but coin and count entries
+    pub uninterp spec fn wf(&self) -> bool; }
 impl<C: ContentAddrStore> Clone for CoinMapping<C> { #[verifier::external_body] fn clone(&self) -> (r: Self) ensures r == *self { unimplemented!() } }
 
 #[verifier::external_body] #[verifier::accept_recursive_types(C)] #[verifier::accept_recursive_types(K)] #[verifier::accept_recursive_types(V)]
